@@ -124,6 +124,89 @@ Theorem C08_enqueue_accepted_before_stop : forall c ops s t o v r, fixedc c -> r
   nth_error (thr s) t = Some (OEnq o v, PRet r) -> r = RAcc \/ r = RDup.
 Proof. exact enq_accepted_before_stop. Qed.
 
+(* CONCURRENT FIRST Enqueue CALLS (the auto-start).  The model's Enqueue starts with autoStartOnce.Do as explicit steps
+   (EOnce: take the Once / wait while another caller holds it / pass when done; EOnceChk, EOnceLock, EOnceBody, EOnceUnlock:
+   startBatchWriter under startStopMutex), and the theorems above and below quantify over all scripts and schedules, so
+   over any number of Enqueue calls standing at / inside the auto-start at the same time.  Made explicit here:
+   a call that is past the auto-start step - whoever performed the start - finds the Once done, the writer goroutine
+   created and, as long as no Stop call has been invoked, running = true. *)
+Theorem C08_concurrent_first_enqueues_started : forall c ops s t o v p, fixedc c -> reach c ops s ->
+  (forall j p', nth_error (thr s) j = Some (OStop, p') -> p' = PIdle) ->
+  nth_error (thr s) t = Some (OEnq o v, p) -> postonce (OEnq o v, p) = true ->
+  once s = ODone /\ spawned s = true /\ running s = true.
+Proof. exact first_enqueues_started. Qed.
+
+(* ... hence (C08_enqueue_accepted_before_stop + C08_complete_written + C08_complete in one statement): an Enqueue call
+   that returned in a state in which no Stop call at all had been invoked is never dropped - it was accepted, a
+   BatchWrite of its object follows its invocation, and when a Stop call invoked later has returned, the store holds the
+   content it announced (if it is the last invocation on that object). *)
+Theorem C08_complete_before_stop : forall c ops sch1 sch2 t ts o v r r', fixedc c ->
+  let s1 := run c sch1 (init ops) in
+  let s2 := run c sch2 s1 in
+  (forall j p, nth_error (thr s1) j = Some (OStop, p) -> p = PIdle) ->
+  nth_error (thr s1) t = Some (OEnq o v, PRet r) ->
+  nth_error (thr s1) ts = Some (OStop, PIdle) ->
+  nth_error (thr s2) ts = Some (OStop, PRet r') ->
+  (r = RAcc \/ r = RDup) /\ wsince (log s2) t o = true /\
+  (last_setter (log s2) o = Some (t, v) -> store s2 o = Some v /\ dirty (log s2) o = false).
+Proof. exact complete_before_stop. Qed.
+
+(* non-vacuity: two first calls at the same time; call 0 is inside the start (Once busy), call 1 stands at the Once and
+   has no enabled step; afterwards both are accepted, written, committed and Done *)
+Example C08_concurrent_first_enqueues_nonvacuous :
+  pc_of s_two_wait 0 = Some (PE EOnceLock) /\ pc_of s_two_wait 1 = Some (PE EOnce) /\ once s_two_wait = OBusy /\
+  step (fixed 2 2) s_two_wait 2 CStep = None /\
+  pc_of s_two_end 0 = Some (PRet RAcc) /\ pc_of s_two_end 1 = Some (PRet RAcc) /\
+  store s_two_end 0 = Some 1 /\ store s_two_end 1 = Some 2 /\ dones (rev (log s_two_end)) = [1; 0].
+Proof. exact two_first_enqueues. Qed.
+
+(* REFUTED for a start flag that does not make the other first callers wait (Start.step_flag: the Once replaced by
+   `if started.CompareAndSwap(false, true) && !running.Load() { startBatchWriter() }`): script = two Enqueue calls and
+   NO Stop call; call 1 loses the flag while call 0 is still on its way to running.Store(true), reads running = false,
+   returns through the "writer has been stopped" exit; its object is never written.  On the same schedule the code with
+   the Once keeps call 1 waiting at the Once. *)
+Theorem C08_refuted_start_flag :
+  (forall j p, nth_error (thr s_flag) j <> Some (OStop, p)) /\
+  pc_of s_flag 0 = Some (PRet RAcc) /\ pc_of s_flag 1 = Some (PRet RRej) /\
+  store s_flag 0 = Some 1 /\ store s_flag 1 = None /\ writes (rev (log s_flag)) = [(0, 1)] /\
+  queue s_flag = [] /\ sched s_flag = 0%Z /\ flag s_flag 1 = false /\ running s_flag = true.
+Proof. exact flag_witness. Qed.
+
+Example C08_regression_start_flag_schedule :
+  let s := run (fixed 2 2) sch_flag (init ops_two) in
+  pc_of s 0 = Some (PRet RAcc) /\ pc_of s 1 = Some (PE EOnce) /\ once s = ODone.
+Proof. exact flag_schedule_with_once. Qed.
+
+(* THE STORE'S BATCH at the level of the mutation calls an object's BatchWrite makes (Muts.v; the model above abstracts a
+   BatchWrite to one Set of one value).  apply_muts = the contract the BatchedWriter relies on: a committed batch has the
+   effect of its Set / Delete calls in the order they were made, with the arguments as they were at the time of the
+   call.  Per key the last call decides; Set-then-Delete leaves the key absent, Delete-then-Set present; for objects
+   that write their full state on keys of their own, the store on an object's keys is what its last committed
+   BatchWrite alone gives ("committed store contents equal the last BatchWrite of each object"); the model's batch is
+   the special case of one Set per BatchWrite.  The correspondence (Corr.objs_ok) compares the implementation's store,
+   read back byte-exact, with apply_muts over the recorded calls. *)
+Theorem C08_batch_last_call_decides : forall l st k,
+  apply_muts l st k = match last_mut l k with Some m => mval m | None => st k end.
+Proof. exact apply_muts_last. Qed.
+
+Theorem C08_batch_set_then_delete : forall l1 l2 l3 k v st, last_mut l3 k = None ->
+  apply_muts (l1 ++ MSet k v :: l2 ++ MDel k :: l3) st k = None.
+Proof. exact set_then_delete. Qed.
+
+Theorem C08_batch_delete_then_set : forall l1 l2 l3 k v st, last_mut l3 k = None ->
+  apply_muts (l1 ++ MDel k :: l2 ++ MSet k v :: l3) st k = Some v.
+Proof. exact delete_then_set. Qed.
+
+Theorem C08_store_last_batchwrite_of_object : forall before w later st k,
+  last_mut w k <> None -> last_mut later k = None ->
+  apply_muts (before ++ w ++ later) st k = apply_muts w kempty k.
+Proof. exact last_write_wins. Qed.
+
+Theorem C08_model_batch_is_mutation_batch : forall b (st : obj -> option nat) (ks : kstore) o,
+  (forall o', ks o' = option_map (fun v => [v]) (st o')) ->
+  apply_muts (batch_muts b) ks o = option_map (fun v => [v]) (apply_batch b st o).
+Proof. exact apply_batch_muts. Qed.
+
 (* The same for every accepted call, also when a later Enqueue on the same object was invoked (and possibly rejected):
    a BatchWrite(o) follows the invocation of t in the log (wsince scans the log newest-first for a BatchWrite(o) before
    reaching t's invocation event). *)
@@ -277,6 +360,14 @@ Print Assumptions C08_no_block.
 Print Assumptions C08_progress.
 Print Assumptions C08_enqueue_accepted_before_stop.
 Print Assumptions C08_can_finish.
+Print Assumptions C08_concurrent_first_enqueues_started.
+Print Assumptions C08_complete_before_stop.
+Print Assumptions C08_refuted_start_flag.
+Print Assumptions C08_batch_last_call_decides.
+Print Assumptions C08_batch_set_then_delete.
+Print Assumptions C08_batch_delete_then_set.
+Print Assumptions C08_store_last_batchwrite_of_object.
+Print Assumptions C08_model_batch_is_mutation_batch.
 Print Assumptions C08_refuted_block_pinned_forever.
 Print Assumptions C08_enqueue_returned_writer_exists.
 Print Assumptions C08_no_block_partial_sender.
